@@ -58,7 +58,18 @@ fn random(a: &Args) {
     let mut nsys = 0usize;
     let mut nev = 0usize;
     let mut samples = Vec::new();
-    for k in 0..count {
+    let funnel: usize = a.num("funnel", 0);
+    for k in 0..count + funnel {
+        if k >= count {
+            let prog = shredh::prog::gen_funnel(&mut rng);
+            let mut res = Vec::new();
+            prog.resources(&mut res);
+            let r = record_registration(&prog, Variant::identity(&res), k + 1, 0, false);
+            nev += r.rec.events.len();
+            write_events(&mut w, &r.rec.events);
+            nsys += prog.count_systems();
+            continue;
+        }
         let mut cfg = base.clone();
         // vary size and resource count so that dense and sparse plans both occur
         cfg.n_res = rng.gen_range(2..=base.n_res.max(2));
@@ -87,7 +98,7 @@ fn random(a: &Args) {
     w.flush().unwrap();
     println!(
         "{}",
-        json!({"programs":count,"variants":variants,"systems":nsys,"events":nev,"samples":samples})
+        json!({"programs":count + funnel,"variants":variants,"systems":nsys,"events":nev,"samples":samples})
     );
 }
 
